@@ -94,8 +94,19 @@ func parse(spec *gen.Type, r *http.Request) (o outcome) {
 	return o
 }
 
+// requestInputs lists the value trees of a parsed request that reached the parser.
+func requestInputs(r *http.Request) []any {
+	in := []any{map[string][]string(r.Header), map[string][]string(r.Form), map[string][]string(r.PostForm)}
+	if vars := pathvar.Vars(r); vars != nil {
+		in = append(in, vars)
+	}
+	return in
+}
+
 func judge(fatal func(string, ...any), st *verifkit.Stats, spec *gen.Type, in *gen.Input,
-	norm map[string]map[string]any, req string, o outcome) {
+	norm map[string]map[string]any, req string, build func() *http.Request) {
+	r := build()
+	o := parse(spec, r)
 	head := fmt.Sprintf("route=httpx.Parse mode=%s\n  type:    %s\n  request: %s\n  docs:    %s",
 		in.Mode, spec, req, (&gen.Input{Docs: norm}).Render())
 	if o.panicked != nil {
@@ -119,6 +130,21 @@ func judge(fatal func(string, ...any), st *verifkit.Stats, spec *gen.Type, in *g
 	if in.MustReject {
 		fatal("C08 VIOLATED: accepted a request that breaks exactly one constraint (%s)\n%s\n  target: %+v",
 			in.What, head, o.target.Elem().Interface())
+		return
+	}
+	// result independence: the same request again, after the first result and the
+	// request's own maps have been overwritten by their owner
+	msg, sc, iw := gen.Independence(spec, norm, o.target, requestInputs(r),
+		func(p any) error { return httpx.Parse(build(), p) })
+	if sc.Refs > 0 {
+		st.Class("indep:refs-scribbled")
+	} else {
+		st.Class("indep:scalars-only")
+	}
+	st.ClassN("indep:ref-writes", sc.Refs)
+	st.ClassN("indep:input-writes", iw)
+	if msg != "" {
+		fatal("C08 (the target holds exactly the supplied values with defaults filled for the absent ones) VIOLATED: %s\n%s", msg, head)
 	}
 }
 
@@ -128,7 +154,7 @@ func TestVerifC08Httpx(t *testing.T) {
 	defer st.Flush()
 	kf := verifkit.KnownFindings("C08")
 	cfg := gen.GenConfig{Mode: "httpx", Exclude: map[string]bool{}, OnExcluded: st.Excluded}
-	for _, id := range []string{"D9a", "D9b", "D9c"} {
+	for _, id := range []string{"D9a", "D9b", "D9c", "N3", "N4"} {
 		if kf[id] {
 			cfg.Exclude[id] = true
 		}
@@ -147,14 +173,18 @@ func TestVerifC08Httpx(t *testing.T) {
 			in := gen.GenInput(t, spec, mode)
 			st.Eval()
 			st.Class("mode:" + in.Mode)
-			r, norm, req := buildRequest(in.Docs, rapid.Bool().Draw(t, "bodyless"), rapid.Bool().Draw(t, "formInBody"))
+			bodyless, formInBody := rapid.Bool().Draw(t, "bodyless"), rapid.Bool().Draw(t, "formInBody")
+			_, norm, req := buildRequest(in.Docs, bodyless, formInBody)
 			if in.Mode == "violation" {
 				st.Class("violated:" + strings.SplitN(in.What, " ", 2)[0])
 				if in.ViolatedOptions >= 2 {
 					st.NonTrivial(spec.String() + " <- " + req + " [" + in.What + "]")
 				}
 			}
-			judge(t.Fatalf, st, spec, in, norm, req, parse(spec, r))
+			judge(t.Fatalf, st, spec, in, norm, req, func() *http.Request {
+				r, _, _ := buildRequest(in.Docs, bodyless, formInBody)
+				return r
+			})
 		}
 	})
 }
